@@ -83,8 +83,9 @@ pub mod m {
         b: i32,
     }
 
+    /// spells the shared file differently
     #[derive(TS)]
-    #[ts(export_to = "shared/m.ts")]
+    #[ts(export_to = "shared/x/../m.ts")]
     pub struct Tail {
         /// first field
         a: i32,
@@ -157,6 +158,8 @@ pub mod m {
             ti!(Imp3, "import", "same-file-ref"),
             ti!(Imp4, "import"),
             ti!(Foo3<ts_rs::Dummy>, "generic"),
+            ti!(Fo<L1>, "generic", "instantiated-with-type-from-another-file"),
+            ti!(Fo<L3>, "generic", "instantiated-with-type-from-another-file"),
             ti!(FooBar, "doc-blank-line"),
             ti!(Baz, "doc-export-type-words"),
             ti!(Qux, "doc-export-type-words"),
@@ -180,8 +183,9 @@ pub mod u {
     pub struct UL2 {
         z: bool,
     }
+    /// a second spelling of `s.ts`
     #[derive(TS)]
-    #[ts(export_to = "s.ts")]
+    #[ts(export_to = "d/../s.ts")]
     pub struct UH {
         l2: UL2,
     }
@@ -256,6 +260,7 @@ pub mod u {
             U { info: ti!(UC), closure: &["UC", "UA"], loc: "UC.ts" },
             U { info: ti!(UD), closure: &["UD", "UB", "UC", "UL", "UA"], loc: "d/UD.ts" },
             U { info: ti!(UE<ts_rs::Dummy>), closure: &["UE", "UA"], loc: "UE.ts" },
+            U { info: ti!(UE<UL>), closure: &["UE", "UA", "UL"], loc: "UE.ts" },
             U { info: ti!(UL), closure: &["UL"], loc: "UL.ts" },
             U { info: ti!(UL2), closure: &["UL2"], loc: "UL.ts" },
             U { info: ti!(UH), closure: &["UH", "UL2"], loc: "s.ts" },
@@ -295,6 +300,22 @@ pub mod g {
     #[ts(export_to = place("G"))]
     pub struct G<T> {
         v: T,
+    }
+    /// generics whose parameter no field shows to the derive (skipped / overridden): the argument is
+    /// reachable only through `visit_generics`
+    #[derive(TS)]
+    #[ts(export_to = place("GH"))]
+    pub struct GH<T> {
+        #[ts(skip)]
+        m: std::marker::PhantomData<T>,
+        x: i32,
+    }
+    #[derive(TS)]
+    #[ts(export_to = place("GO"))]
+    pub struct GO<T> {
+        #[ts(type = "string")]
+        m: Vec<T>,
+        x: i32,
     }
     #[derive(TS)]
     #[ts(export_to = place("K"))]
@@ -381,6 +402,12 @@ pub mod g {
     root!(struct RSkip { #[ts(skip)] b: B, c: C });
     root!(struct ROptional { #[ts(optional)] b: Option<B> });
 
+    // arguments of a generic that are reachable only through the parameter list, behind containers
+    root!(struct RGenHidden { h: GH<B> });
+    root!(struct RGenHiddenVec { h: GH<Vec<B>> });
+    root!(struct RGenHiddenDeep { h: GH<Option<Box<C>>>, o: GO<(B, Vec<B2>)> });
+    root!(struct RGenHiddenInline { #[ts(inline)] h: GH<Vec<B>>, o: GO<G<C>> });
+
     // enums: payload kinds under each representation
     root!(enum EExt { N(B), T(B, C), S { b: B2 }, U });
     root!(#[ts(tag = "t")] enum EInt { N(B), S { b: B2 }, U });
@@ -454,6 +481,10 @@ pub mod g {
             ti!(EInlineAndName, "enum", "inline-payload", "same-type-twice"),
             ti!(RInlineSet, "inline", "container"),
             ti!(RSetOfGen, "container", "generic-arg"),
+            ti!(RGenHidden, "generic-arg", "parameter-not-in-fields"),
+            ti!(RGenHiddenVec, "generic-arg", "parameter-not-in-fields", "container-bound-to-parameter"),
+            ti!(RGenHiddenDeep, "generic-arg", "parameter-not-in-fields", "container-bound-to-parameter"),
+            ti!(RGenHiddenInline, "generic-arg", "parameter-not-in-fields", "container-bound-to-parameter", "inline"),
             ti!(RSkip, "skip"),
             ti!(ROptional, "optional"),
             ti!(EExt, "enum", "external"),
@@ -482,6 +513,8 @@ pub mod g {
             ("C", ti!(C)),
             ("B2", ti!(B2)),
             ("G", ti!(G<ts_rs::Dummy>)),
+            ("GH", ti!(GH<ts_rs::Dummy>)),
+            ("GO", ti!(GO<ts_rs::Dummy>)),
             ("K", ti!(K)),
             ("Y", ti!(RCyc2)),
         ]
